@@ -85,12 +85,76 @@ def run(d, tier="quick"):
     return caught, viol
 
 
+def prun_one(arg):
+    """Development variant of `run`: the patch is applied to a scratch worktree and the check is pointed at it
+    with VERIF_REPO_SRC, so several seeded changes can be tried in parallel and /repo stays untouched."""
+    d, tier, slot = arg
+    d = os.path.abspath(d)
+    meta = json.load(open(os.path.join(d, "meta.json")))
+    pid = meta["property"]
+    wt = "/tmp/seedwt-%d" % slot
+    if not os.path.isdir(wt):
+        r = sh("git -C %s worktree add -f --detach %s main" % (REPO, wt))
+        assert r.returncode == 0, r.stdout
+    sh("git -C %s checkout -q --detach main && git -C %s checkout -- . && git -C %s clean -fdq" % (wt, wt, wt))
+    r = sh("git -C %s apply %s/patch.diff" % (wt, d))
+    if r.returncode != 0:
+        print("%-10s PATCH DOES NOT APPLY: %s" % (os.path.basename(d), r.stdout[-200:]))
+        return
+    out = "/tmp/seedout-%d" % slot
+    os.makedirs(out, exist_ok=True)
+    env = dict(os.environ, VERIF_REPO_SRC=wt + "/src", VERIF_EVIDENCE_DIR=out, VERIF_REPLAY_DIR=out)
+    t0 = time.time()
+    r = sh("./check %s --tier %s" % (pid, tier), cwd=ROOT, timeout=7200, env=env)
+    sh("git -C %s checkout -- ." % wt)
+    viol = [l for l in r.stdout.splitlines() if l.startswith("VIOLATION")]
+    caught = r.returncode == 1 and bool(viol)
+    head = sh("git -C %s rev-parse --short main" % REPO).stdout.strip()
+    with open(os.path.join(d, "result.json"), "w") as f:
+        json.dump({"check": "./check %s --tier %s" % (pid, tier), "caught": caught, "exit": r.returncode,
+                   "violation_lines": viol[:4], "wall_s": round(time.time() - t0), "repo_head": head,
+                   "how": "patch applied to a scratch worktree of /repo main, check run with VERIF_REPO_SRC"}, f, indent=1)
+    print("%-10s %s rc=%d %.0fs %s" % (os.path.basename(d), "CAUGHT" if caught else "MISSED", r.returncode,
+                                      time.time() - t0, [v[:150] for v in viol[:2]]), flush=True)
+    if r.returncode == 2:
+        print(r.stdout[-800:])
+
+
+def prun(tier="quick", only=None, par=4):
+    import concurrent.futures as cf
+    base = os.path.join(ROOT, "seeded")
+    names = [n for n in sorted(os.listdir(base)) if os.path.exists(os.path.join(base, n, "patch.diff"))
+             and (not only or n.split("-")[0] in only or n in only)]
+    import queue
+    slots = queue.Queue()
+    for i in range(par):
+        slots.put(i)
+
+    def job(n):
+        s = slots.get()
+        try:
+            prun_one((os.path.join(base, n), tier, s))
+        finally:
+            slots.put(s)
+    with cf.ThreadPoolExecutor(par) as ex:
+        list(ex.map(job, names))
+    for i in range(par):
+        sh("git -C %s worktree remove --force /tmp/seedwt-%d" % (REPO, i))
+        sh("rm -rf /tmp/seedout-%d" % i)
+
+
 if __name__ == "__main__":
     cmd = sys.argv[1]
     if cmd == "verify":
         sys.exit(0 if verify(sys.argv[2]) else 1)
     elif cmd == "run":
         run(sys.argv[2], *(sys.argv[3:4]))
+    elif cmd == "prun":
+        tier = "quick"
+        only = [a for a in sys.argv[2:] if a not in ("quick", "thorough")]
+        if "thorough" in sys.argv[2:]:
+            tier = "thorough"
+        prun(tier, only or None)
     elif cmd == "all":
         base = os.path.join(ROOT, "seeded")
         for n in sorted(os.listdir(base)):
